@@ -3,9 +3,9 @@ package store
 import (
 	"bytes"
 	"encoding/json"
-	"strings"
 
 	"github.com/protocolbuffers/txtpbfmt/parser"
+	"github.com/tableauio/tableau/internal/x/xproto"
 	"google.golang.org/protobuf/encoding/protojson"
 	"google.golang.org/protobuf/encoding/prototext"
 	"google.golang.org/protobuf/proto"
@@ -129,7 +129,7 @@ func MarshalToText(msg proto.Message, pretty bool) (out []byte, err error) {
 	}
 	// To obtain some degree of stability, remove redundant spaces/whitespace.
 	// refer: https://stackoverflow.com/questions/37290693/how-to-remove-redundant-spaces-whitespace-from-a-string-in-golang
-	text := strings.Join(strings.Fields(string(messageText)), " ")
+	text := xproto.SqueezeText(string(messageText))
 	return []byte(text), nil
 }
 
